@@ -26,6 +26,39 @@ handle that does not exist (malformed history, never sent to the code) -/
 inductive Obs | table (t : Table) | err | panic | fault
 deriving Repr, DecidableEq
 
+/-! ### IEEE binary64 rounding, over `Nat` (independent of Lean's `Float` and of the model)
+
+`rne p q` is the binary64 value nearest to the positive rational `p/q` (round to nearest, ties to even,
+53-bit significand), returned as a fraction.  Exponent range is not modelled: the shares and cut-off weights
+it is used for lie in [10⁻⁷, 10⁴], and a subnormal cut-off times 10000 truncates to 0 under any precision. -/
+
+/-- `p/q ≥ 2^k` -/
+def geTwoPow (p q : Nat) (k : Int) : Bool :=
+  if k ≥ 0 then decide (p ≥ q * 2 ^ k.toNat) else decide (p * 2 ^ (-k).toNat ≥ q)
+
+def rne (p q : Nat) : Nat × Nat :=
+  if p = 0 ∨ q = 0 then (0, 1) else
+  let k : Int := (Nat.log2 p : Int) - (Nat.log2 q : Int)          -- ⌊log₂(p/q)⌋ ∈ {k-1, k}
+  let fl : Int := if geTwoPow p q k then k else k - 1
+  let e : Int := fl - 52                                          -- (p/q) / 2^e ∈ [2^52, 2^53)
+  let n : Nat := if e ≥ 0 then p else p * 2 ^ (-e).toNat
+  let d : Nat := if e ≥ 0 then q * 2 ^ e.toNat else q
+  let m := n / d
+  let r := n % d
+  let m' := if 2 * r > d then m + 1 else if 2 * r = d then (if m % 2 = 0 then m else m + 1) else m
+  if e ≥ 0 then (m' * 2 ^ e.toNat, 1) else (m', 2 ^ (-e).toNat)
+
+/-- `int((float64(w) / float64(total)) * 10000)` for `0 ≤ w`, `0 < total` below 2^53: two roundings, then truncation -/
+def shareF64 (w total : Int) : Int :=
+  let a := rne w.toNat total.toNat
+  let b := rne (a.1 * 10000) a.2
+  ((b.1 / b.2 : Nat) : Int)
+
+/-- `int(10000 * c)` for the real number `q = c ≥ 0` (a binary64 value given exactly) -/
+def cutF64 (q : Rat) : Int :=
+  let b := rne (10000 * q.num.toNat) q.den
+  ((b.1 / b.2 : Nat) : Int)
+
 /-- the text is a well-formed table text of the line protocol (Model/Codon.lean): three "/"-separated parts, every
 amino-acid entry `LETTER:codons`, every codon `triplet=integer`.  `parseTable` is total (a malformed text would
 read as the empty table, an unparsable weight as 0); drivers call this first and treat a malformed reply of
